@@ -1,7 +1,7 @@
 (* C04 — a confirmed request ends in exactly one outcome, in bounded time, no residue.
    Property theorems only; the model is Bac.Ssm (ClientSSM / ServerSSM transcribed from appservice.py with the
    fix: commits of known_findings/C04.json applied), proofs in Bac.SsmC04a / Bac.SsmC04 / Bac.SsmC05. *)
-From Bac Require Import Base PyRt Ssm SsmFacts SsmC04a SsmC04 SsmC04t SsmC05 SsmWorld.
+From Bac Require Import Base PyRt Ssm SsmFacts SsmC04a SsmC04 SsmC04t SsmC04s SsmC05 SsmWorld.
 Open Scope Z_scope.
 
 (* over any sequence of inbound frames and time-outs, in any order and at any instants, a client transaction hands
@@ -54,6 +54,22 @@ Theorem C04_budget_nonneg : forall s, cnt_ok s -> 0 <= budget s.
 Proof. exact budget_nonneg. Qed.
 Print Assumptions C04_budget_nonneg.
 
+(* the serving side keeps no residue either: for every frame in every state, for the application's answer and for every
+   time-out, a ServerSSM is in the table iff it is not COMPLETED/ABORTED, a removed one holds no timer, and one that stays
+   has its timer armed whenever the handler did not raise (for a frame: provided it was armed before, or the transaction is new) *)
+Theorem C04_server_frame_no_residue : forall a st, pre_s st ->
+  post_s st (s_indication a st) (s_timer (h_s st) <> None \/ s_state (h_s st) = IDLE).
+Proof. exact s_indication_post. Qed.
+Print Assumptions C04_server_frame_no_residue.
+
+Theorem C04_server_answer_no_residue : forall a st, pre_s st -> post_s st (s_confirmation a st) (s_timer (h_s st) <> None).
+Proof. exact s_confirmation_post. Qed.
+Print Assumptions C04_server_answer_no_residue.
+
+Theorem C04_server_timeout_no_residue : forall st, pre_s st -> post_s st (s_process_task st) True.
+Proof. exact s_timeouts_post. Qed.
+Print Assumptions C04_server_timeout_no_residue.
+
 (* the handlers can raise: a retransmitted ConfirmedRequest that meets a server sending a segmented response *)
 Theorem C04_no_exn_refuted : exists s a, s_state s = SEGMENTED_RESPONSE /\ a_type a = 0 /\
   snd (s_indication a (mkH s [] 1 0 true)) = Some RuntimeErr.
@@ -74,6 +90,8 @@ Print Assumptions C04_reserved_maxresp_no_residue.
 (* non-vacuity: a fresh client transaction is ready; a run with an outcome exists *)
 Example C04_ready_example : c_ready fresh_client.
 Proof. vm_compute. repeat split. Qed.
+Example C04_server_pre_example : pre_s (mkH fresh_server [] 0 0 true) /\ pre_s (mkH busy_server [] 0 0 true).
+Proof. vm_compute. repeat split; discriminate. Qed.
 Example C04_budget_example : cnt_ok fresh_client /\ budget fresh_client = 19.
 Proof. vm_compute. repeat split; discriminate. Qed.
 Example C04_life_example :
